@@ -2,6 +2,7 @@
 mod dev;
 mod fs;
 mod mkfs;
+mod mount;
 mod pure;
 mod reader;
 mod sd;
@@ -81,6 +82,14 @@ fn main() {
         "codec" => {
             let mut out = std::io::BufWriter::new(std::fs::File::create(&args[2]).expect("create out"));
             let r = pure::codec_vectors(&mut out, &args[3], args[4].parse().unwrap());
+            out.flush().unwrap();
+            println!("{}", r);
+        }
+        "mount" => {
+            // vh mount <images.json> <out.ndjson> <tier> <seed>
+            let sc: J = serde_json::from_reader(std::fs::File::open(&args[2]).expect("open images")).expect("parse images");
+            let mut out = std::io::BufWriter::new(std::fs::File::create(&args[3]).expect("create out"));
+            let r = mount::mount_vectors(&sc, &mut out, &args[4], args[5].parse().unwrap());
             out.flush().unwrap();
             println!("{}", r);
         }
